@@ -176,6 +176,43 @@ def labels(xs):
     return out
 
 
+def order_labels(xs, zero=False):
+    """Canonical order pattern of symbolic numbers: returns concrete ints r with
+    r[i] < r[j] iff xs[i] < xs[j] and r[i] == r[j] iff xs[i] == xs[j]; with zero=True
+    additionally sign(r[i]) == sign(xs[i]).  Each comparison is a solver-decided
+    branch (insertion into a sorted list of classes), so one path per feasible weak
+    ordering is explored and everything afterwards runs on concrete ranks.  Code that
+    uses the numbers only through comparisons cannot tell the difference."""
+    classes = []            # sorted list of (representative symbolic value, [indices])
+    if zero:
+        classes.append((0, [-1]))
+    for i, x in enumerate(xs):
+        placed = False
+        for pos in range(len(classes)):
+            rep = classes[pos][0]
+            if x == rep:
+                classes[pos][1].append(i)
+                placed = True
+                break
+            if x < rep:
+                classes.insert(pos, (x, [i]))
+                placed = True
+                break
+        if not placed:
+            classes.append((x, [i]))
+    out = [0] * len(xs)
+    base = 0
+    if zero:
+        for pos, (rep, idxs) in enumerate(classes):
+            if -1 in idxs:
+                base = pos
+    for pos, (rep, idxs) in enumerate(classes):
+        for i in idxs:
+            if i >= 0:
+                out[i] = pos - base
+    return out
+
+
 def keq(a, b):
     return True if a == b else False
 
